@@ -170,7 +170,12 @@ func (a *archiver) worker(workerID string) {
 		case <-controlChans.PauseCh:
 			verifhook.At("arch.pause.ack", workerID)
 			logger.Debug("received pause event")
-			controlChans.ResumeCh <- struct{}{}
+			select {
+			case controlChans.ResumeCh <- struct{}{}:
+			case <-a.ctx.Done():
+				logger.Debug("shutting down while paused")
+				return
+			}
 			verifhook.At("arch.resumed", workerID)
 			logger.Debug("received resume event")
 		case seed, ok := <-a.inputCh:
